@@ -79,6 +79,8 @@ type Action struct {
 	// take precedence over ctx_id / req_id, so a replay stays meaningful after steps have been removed
 	// (transaction hashes, and with them all IDs, shift).
 	CtxRef *int `json:"ctx_ref,omitempty"`
+	// TxRef: the message targets the context created by message number TxRef of the same transaction
+	TxRef *int `json:"tx_ref,omitempty"`
 	ReqRef *int `json:"req_ref,omitempty"`
 }
 
